@@ -694,6 +694,7 @@ func comparedPhi(ifi *ssa.If) *ssa.Phi {
 func (c *Ctx) c05Backends() {
 	R := c.R
 	succ, _ := c.P.ConstVal("mint/lightning", "Succeeded")
+	failedConst, _ := c.P.ConstVal("mint/lightning", "Failed")
 	meths := []string{c.V.StatusMeth}
 	for m := range c.V.PayMeths {
 		meths = append(meths, m)
@@ -704,13 +705,44 @@ func (c *Ctx) c05Backends() {
 			if f == nil || f.Blocks == nil {
 				continue
 			}
-			o := c.P.OriginsOf(f)
 			fk := c.P.FuncKey(f)
-			for _, r := range Returns(f) {
-				if len(r.Results) != 2 {
-					continue
+			// the method and the helpers new on this tree that build its answers, each return examined in place
+			type retIn struct {
+				o *Origins
+				r *ssa.Return
+			}
+			var rets []retIn
+			for _, g := range c.OpFuncs(f) {
+				og := c.P.OriginsOf(g)
+				for _, r := range Returns(g) {
+					if len(r.Results) != 2 {
+						continue
+					}
+					if ex, ok := r.Results[0].(*ssa.Extract); ok {
+						if call, ok := ex.Tuple.(*ssa.Call); ok && c.P.IsNewFunc(call.Call.StaticCallee()) {
+							continue // passes on the answer of a helper that is examined itself
+						}
+					}
+					rets = append(rets, retIn{og, r})
 				}
+			}
+			for _, ri := range rets {
+				o, r := ri.o, ri.r
 				st := project(o.Of(r.Results[0]), "PaymentStatus")
+				// the status look-up answers a definitive outcome (Succeeded, Failed) with a nil error only behind a test
+				// that the node's answer EQUALS a named status: what a status dispatch does not name (a state added
+				// later, "initiated", "unknown") is ambiguous and reads as Pending or as an error
+				if m == c.V.StatusMeth && !o.IsFailureReturn(r) && len(st.Alts()) == 1 && st.K == "const" && (st.S == succ || st.S == failedConst) && !fromOwnTable(st.String()) {
+					named := &Cond{Name: "the node's answer equals a named status", Match: func(ft *Fact, _ *Origins) bool {
+						if ft.Kind != "cmp" || !ft.Pos || ft.Op.String() != "==" {
+							return false
+						}
+						return (ft.A.K == "const") != (ft.B.K == "const")
+					}}
+					ok, why := o.Requires(r, named)
+					R.Check("R3", fk, "definitive status "+st.S+" answered only for a named node status", c.P.InstrPos(r), ok,
+						"the look-up reports Succeeded / Failed with a nil error only behind an equality test on the node's status (never as the fall-through of a dispatch)", why)
+				}
 				zero := false
 				for _, a := range st.Alts() {
 					if a.K == "zero" || isConst(a, succ) {
